@@ -2,6 +2,8 @@ package node
 
 import (
 	"fmt"
+	"io"
+	"sync/atomic"
 	"testing"
 	"time"
 
@@ -18,7 +20,7 @@ import (
 // outgoing version, outgoing key or dialect are.
 func TestC06NodeIncoming(t *testing.T) {
 	rec := evid.New(t, "C06", "node level, incoming side: nodes with an incoming key and every combination of outgoing version {1,2}, outgoing key {none, same, other} and dialect {none, ardupilotmega} receive generated sequences of v1 frames, unsigned v2 frames, frames signed under another key, frames with a damaged signature and validly signed frames: only the validly signed ones may surface as frame events, all others as parse errors; non-trivial = sequence with at least one rejected and one valid frame; distinct by hash of the sequence and configuration")
-	rec.Require("out-v1", "out-v2", "no-dialect", "v1-frame", "unsigned", "other-key", "valid")
+	rec.Require("out-v1", "out-v2", "no-dialect", "v1-frame", "unsigned", "other-key", "valid", "endpoint-serial", "endpoint-tcp-server", "endpoint-udp-server")
 	evid.Check(t, rec, evid.N(150, 600), func(t *rapid.T) {
 		drawNodeInit(t)
 		key := [32]byte{}
@@ -30,8 +32,26 @@ func TestC06NodeIncoming(t *testing.T) {
 		withDialect := rapid.Bool().Draw(t, "dialect")
 		kinds := rapid.SliceOfN(rapid.SampledFrom([]string{"valid", "valid", "v1-frame", "unsigned", "other-key", "badsig"}), 1, 12).Draw(t, "frames")
 		desc := fmt.Sprintf("outV2=%v outKey=%s dialect=%v frames=%v", outV2, outKey, withDialect, kinds)
+		// the key is the node's: it guards every kind of endpoint alike
+		epKind := rapid.SampledFrom([]string{"custom", "custom", "serial", "tcp-server", "udp-server"}).Draw(t, "endpoint")
+		desc += " endpoint=" + epKind
 		p := sim.NewPipe()
-		n := &gomavlib.Node{Endpoints: []gomavlib.EndpointConf{gomavlib.EndpointCustom{ReadWriteCloser: p}}, OutVersion: gomavlib.V1,
+		var ep gomavlib.EndpointConf = gomavlib.EndpointCustom{ReadWriteCloser: p}
+		port := 0
+		switch epKind {
+		case "serial":
+			dev := fmt.Sprintf("/dev/ttyC06_%d", atomic.AddInt64(&serialCounter, 1))
+			serialDevices.Store(dev, func() (io.ReadWriteCloser, error) { return p, nil })
+			defer serialDevices.Delete(dev)
+			ep = gomavlib.EndpointSerial{Device: dev, Baud: 57600}
+		case "tcp-server":
+			port = sim.FreePort()
+			ep = gomavlib.EndpointTCPServer{Address: sim.Addr(port)}
+		case "udp-server":
+			port = sim.FreePort()
+			ep = gomavlib.EndpointUDPServer{Address: sim.Addr(port)}
+		}
+		n := &gomavlib.Node{Endpoints: []gomavlib.EndpointConf{ep}, OutVersion: gomavlib.V1,
 			OutSystemID: 5, HeartbeatDisable: true, InKey: keyOf(&key)}
 		if outV2 {
 			n.OutVersion = gomavlib.V2
@@ -49,6 +69,21 @@ func TestC06NodeIncoming(t *testing.T) {
 			t.Fatalf("BROKEN: %v (%s)", err, desc)
 		}
 		r := sim.StartRecorder(n, sim.Pacing{Kind: "fast"}, nil)
+		var peer *sim.Peer
+		if port != 0 {
+			var derr error
+			if peer, derr = sim.Dial(map[string]string{"tcp-server": "tcp4", "udp-server": "udp4"}[epKind], sim.Addr(port)); derr != nil {
+				t.Fatalf("BROKEN: dial: %v", derr)
+			}
+			defer peer.Close()
+		}
+		feed := func(b []byte) {
+			if peer != nil {
+				peer.Send(b) //nolint:errcheck
+				return
+			}
+			p.Feed(b)
+		}
 		ts := uint64(7000000)
 		var want []int
 		for i, k := range kinds {
@@ -68,7 +103,7 @@ func TestC06NodeIncoming(t *testing.T) {
 				f = tagged(1, i, "raw", true, &key, ts)
 				f.Sig[i%6] ^= 0x80
 			}
-			p.Feed(f.Bytes())
+			feed(f.Bytes())
 		}
 		ok := r.WaitFor(bound, func(recs []sim.Rec) bool {
 			k := 0
@@ -104,6 +139,7 @@ func TestC06NodeIncoming(t *testing.T) {
 		if outV2 {
 			cls = []string{"out-v2"}
 		}
+		cls = append(cls, "endpoint-"+epKind)
 		if !withDialect {
 			cls = append(cls, "no-dialect")
 		}
